@@ -628,16 +628,26 @@ def rule_every_method_written(repo: Repo, rep, rule: str = "R7.13") -> None:
         problems.append((c, f"`{norm(c)[:60]}` removes rendered methods from the list"))
     from sa.model import parent as _par
 
-    for c in wb:
-        q = _par(c)
-        while q is not None and q is not lp:
-            if isinstance(q, (ast.If, ast.Try, ast.While)):
-                problems.append((q, f"the write of a method is conditional (`{norm(q)[:50]}`)"))
-                break
-            q = _par(q)
+    # every iteration writes its element: each way from the loop head back to it (or out of the loop) passes the write
+    cfg = CFG(fn.node)
+    heads = [n for n in cfg.nodes if n.kind == "iter" and n.stmt is lp]
+    wnodes = {n.id for n in cfg.nodes if n.kind == "stmt" and n.ast is not None and not n.copy and any(c2 is c for c in wb for c2 in calls_in(n.ast))}
+    if not heads or not wnodes:
+        raise AnalysisError(f"{rule}: CFG nodes of the writing loop not found (anchor)")
+    h = heads[0]
+    for m, lab in cfg.succ[h.id]:
+        if lab == "done":
+            continue
+        wpath = cfg.must_pass(m, wnodes, {h.id, cfg.exit}) if m not in wnodes else None
+        if wpath is not None:
+            problems.append((cfg.nodes[wpath[-1]].ast or lp, f"an iteration can end without writing its method ({cfg.describe_path(wpath)[:100]})"))
     for x in ast.walk(lp):
-        if isinstance(x, (ast.Continue, ast.Break)):
-            problems.append((x, "the writing loop can skip or stop early"))
+        if isinstance(x, ast.Break):
+            q = _par(x)
+            while q is not None and not isinstance(q, (ast.For, ast.AsyncFor, ast.While)):
+                q = _par(q)
+            if q is lp:
+                problems.append((x, "the writing loop can stop before the last method"))
     if problems:
         node, why = problems[0]
         rep.violation(rule, sub, f"{ev.name}:EndpointVisitor|methods-not-written-whole|{len(problems)}",
